@@ -160,7 +160,11 @@ def run(ctx):
             body = gen_body(rng, enc)
             doc = ''
             if decl:
-                doc += decl + rng.choice(['', '\n', '\r\n'])
+                # white space in front of the declaration: then it is not an XML declaration - for str, bytes and files alike
+                lead_ws = rng.choice(['', '', '', '', '\n', ' ', '\t', '\r\n', '\n\n  '])
+                if lead_ws:
+                    decl_kind += '-after-white-space'
+                doc += lead_ws + decl + rng.choice(['', '\n', '\r\n'])
             if meta:
                 doc += '<html><head>' + meta + '</head><body>' + body + '</body></html>'
             else:
